@@ -610,17 +610,40 @@ pub fn shape_pool(q: bool) -> Vec<Spec> {
     v.extend(range_overlap_family().into_iter().step_by(if q { 3 } else { 1 }));
     v.extend(ctx_family(false).into_iter().filter(|s| s.family == "ctx_past" || s.family == "ctx_shared"));
     v.extend(eoi_family().into_iter().filter(|s| s.family == "eoi1").step_by(if q { 3 } else { 1 }));
+    // sizes: a 30-rule definition, deep nesting, many alternatives
+    v.extend(stress_family().into_iter().filter(|s| s.family == "thirty"));
+    v.push(Spec::single(vec![ret(plus(cat(star(alt(ch('a'), ch('b'))), ch('c')))), ret(ch('a')), ret(ch('x'))], "nested"));
+    v.push(Spec::single(vec![ret(plus(cat(ch('a'), opt(cat(ch('b'), opt(ch('c'))))))), ret(st("abx")), ret(set(&[('a', 'c')]))], "nested"));
+    v.push(Spec::single(vec![ret(cat(alt(star(st("ab")), plus(st("ba"))), ch('c'))), ret(ch('a')), ret(ch('b'))], "nested"));
+    v.push(Spec::single(
+        vec![ret(alt(alt(alt(alt(st("ab"), st("ac")), alt(st("ba"), st("bc"))), alt(st("ca"), st("cb"))), alt(st("abc"), st("cba")))), ret(set(&[('a', 'c')]))],
+        "nested",
+    ));
     v
 }
 
 /// The pool as two groups (letters a b c x; characters at the ends of table ranges).
 pub fn pool_groups(prop: &'static str, proj: Proj, q: bool, max_dev: usize) -> Vec<Group> {
-    let p1 = plan(prop, proj, 5, max_dev);
+    let mut p1 = plan(prop, proj, 5, max_dev);
+    p1.extra_inputs = vec!["abcabcabcabx".into(), "aaaaaaaaaaaaab".into(), "abababababababc".into(), "cbacbacbaxcba".into(), "abcbabcbabcbx".into(), "xxxxxxxxab".into()];
     let mut p2 = plan(prop, proj, if q { 3 } else { 4 }, 0);
     p2.alphabet = TABLE_ALPHABET.to_vec();
     p2.extra_inputs = vec!["az9_!".into(), "zZ.9\u{10FFFF}a".into(), "aZz99.9!".into()];
+    // classes at the guard-chain / search-table threshold (MAX_GUARD_SIZE ranges and one more)
+    let nranges = |n: usize| -> Re {
+        let mut v = vec![('0', '9'), ('A', 'Z'), ('a', 'b'), ('y', 'z')];
+        v.extend("dfhjlnprtv".chars().take(n.saturating_sub(4)).map(|c| (c, c)));
+        Re::Set(v)
+    };
+    let mut thresholds: Vec<Spec> = vec![];
+    for n in if q { vec![9usize, 10] } else { vec![8usize, 9, 10, 11] } {
+        thresholds.push(Spec::single(vec![ret(cat(nranges(n), ch('!'))), ret(plus(nranges(n))), ret(ch('z'))], "threshold"));
+        thresholds.push(Spec::single(vec![Rule { re: ch('!'), ctx: Some(cat(nranges(n), ch('z'))), kind: Kind::Act(D_RETURN) }, ret(set(&[('a', 'z')])), ret(ch('!'))], "threshold"));
+    }
     // the table lexers are expensive to compile: the quick tier keeps three of them
     let tables: Vec<Spec> = if q { builtin_rules_family().into_iter().enumerate().filter(|(i, _)| [0usize, 2, 3].contains(i)).map(|(_, s)| s).collect() } else { builtin_rules_family() };
+    let mut tables = tables;
+    tables.extend(thresholds);
     vec![Group { plan: p1, specs: shape_pool(q) }, Group { plan: p2, specs: tables }]
 }
 
